@@ -30,6 +30,12 @@ MAGIC_LBRACKET_CHAR: str = chr(MAGIC_LEFT_SBRACKET)
 MAGIC_RIGHT_SBRACKET: int = next(mnum)
 MAGIC_RBRACKET_CHAR: str = chr(MAGIC_RIGHT_SBRACKET)
 
+# Stands for an "=" that came out of a substituted parameter value inside the
+# arguments of a call in a template body: only an "=" written in the call
+# itself separates an argument name from its value.
+MAGIC_EQUALS: int = next(mnum)
+MAGIC_EQUALS_CHAR: str = chr(MAGIC_EQUALS)
+
 # An argument of a template call or of #invoke is named when it begins with a
 # name followed by "=".  A name cannot contain the characters that start or
 # delimit links, HTML tags and attributes ('<span class="x">' in an unnamed
